@@ -17,7 +17,8 @@ RULE = ('combinator trees of depth <= 4 over the atoms {M op c, M(T-expr) op c, 
         'run on a target set covering every truth assignment of its atoms (targets enumerated from the atoms\' thresholds: ints around '
         'each constant, a string, None, a dict with and without the accessed key); observed: result, exception class, and the probe '
         'log (which children ran). Non-trivial: >= 2 combinators or a default.')
-ASSUMPTIONS = ['ordering comparisons are modelled on ints / bools / strings; other operand types are Unmodelled (not counted)']
+ASSUMPTIONS = ['ordering comparisons are modelled on ints / bools / strings; other operand types are Unmodelled (not counted)',
+               'values that are not equal to themselves (NaN, Decimal NaN, a NULL-like object) are outside the value model: 45 selfcmp cases decide M == c / M != c on the same object against Python\'s own operators, on the implementation side']
 SHARD = 300
 
 TARGETS = [0, 1, 3, 5, 6, 10, -2, 'a', '', None, True,
@@ -113,7 +114,7 @@ def corpus():
 
 def generate(rng, tier):
     n = 120 if tier == 'quick' else 900
-    out = []
+    out = [{'kind': 'selfcmp', 'i': i} for i in range(len(selfcmp_cases()))]
     for _ in range(n):
         g = Gen(rng)
         tree = g.tree(rng.choice([1, 2, 3, 3]))
@@ -127,19 +128,71 @@ def generate(rng, tier):
     return out
 
 
+class NullLike:
+    """SQL-NULL-like: equal to nothing, itself included"""
+    def __eq__(self, other):
+        return False
+
+    def __ne__(self, other):
+        return True
+
+    __hash__ = object.__hash__
+
+
+def selfcmp_cases():
+    """M == c / M != c decide like Python's == / != on the two operands — also when both are the SAME object and that object is not
+    equal to itself (NaN, a NULL-like value): no identity shortcut"""
+    import decimal
+    import operator
+    from glom import M, T, Switch, Or, And, Val
+    out = []
+    for name, x in (('nan', float('nan')), ('decimal-nan', decimal.Decimal('NaN')), ('null-like', NullLike()), ('one', 1.0), ('list', [1])):
+        for opname, op in (('==', operator.eq), ('!=', operator.ne)):
+            out.append(('M %s %s (same object)' % (opname, name), x, op(M, x), op(x, x)))
+            out.append(('M(T[x]) %s %s (same object)' % (opname, name), {'x': x}, op(M(T['x']), x), op(x, x)))
+            out.append(('M %s M on %s' % (opname, name), x, op(M, M), op(x, x)))
+            out.append(('And(M %s %s, M %s %s)' % (opname, name, opname, name), x, And(op(M, x), op(M, x)), op(x, x)))
+        out.append(('Switch on %s' % name, x, Switch([(M == x, Val('equal')), (M != x, Val('not equal'))]), 'equal' if x == x else 'not equal'))
+    return out
+
+
+def run_selfcmp(case):
+    import glom
+    name, target, spec, want = selfcmp_cases()[case['i']]
+    try:
+        res = glom.glom(target, spec)
+        got = res if isinstance(want, str) else True
+    except glom.MatchError:
+        got = False
+    except Exception as e:
+        got = 'raised %s' % type(e).__name__
+    if got != want:
+        return {'problems': ['%s: Python decides %r, glom %r' % (name, want, got)]}
+    return {}
+
+
 def run_impl(case):
+    if case.get('kind') == 'selfcmp':
+        return run_selfcmp(case)
     return pyspec.run_glom(case)
 
 
 def coq_case(case, out):
+    if case.get('kind') == 'selfcmp':
+        return '(mkI VNone (SRequired SM) [] (Unmodelled "harness") [])'
     return c03.coq_case(case, out)
 
 
-model_dump_term = c03.model_dump_term
+def model_dump_term(case):
+    return '0' if case.get('kind') == 'selfcmp' else c03.model_dump_term(case)
+
+
 python_snippet = c03.python_snippet
 
 
 def direct_oracle(case, out):
+    if case.get('kind') == 'selfcmp':
+        return '; '.join(out['problems']) if out.get('problems') else None
     if 'raise' in out and case['spec'][0] in ('And', 'Or', 'Not', 'Switch', 'MExpr', 'M'):
         planted = "'raise', '%s'" % out['raise'] in repr(case['spec'])      # a value spec's own callable raised it: not a rejection
         if 'GlomError' in out.get('isa', []) and out['raise'] not in ('MatchError', 'TypeMatchError', 'PathAccessError') and not planted:
@@ -156,8 +209,12 @@ def _count(ir):
 
 
 def nontrivial(case, out):
+    if case.get('kind') == 'selfcmp':
+        return True
     return _count(case['spec']) >= 2 or case['spec'][0] == 'Check'
 
 
 def classify(case, out):
+    if case.get('kind') == 'selfcmp':
+        return 'selfcmp'
     return '%s:%s' % (case['spec'][0], out.get('raise', 'ok'))
